@@ -1,7 +1,7 @@
 (* C15: the regenerated path slice (Gen/GenPathSlice.v) is exactly the BACKWARD dependency closure
    of the state variables (Spec/PathSliceSpec.v constrains_back), which is smaller than the
    constraints on the state (constrains): a witness is given. *)
-From Coq Require Import ZArith List Bool Lia PeanoNat.
+From Coq Require Import ZArith List Bool Lia PeanoNat Setoid.
 From HV Require Import Spec.PathSliceSpec Model.PathSliceModel Gen.GenPathSlice.
 Import ListNotations.
 Open Scope Z_scope.
@@ -19,16 +19,10 @@ Lemma get_related_in : forall (rel : nat -> list nat) (v2c : Z -> list nat) (S :
   (exists v, In v S /\ In i (v2c v)) \/
   (exists c, (exists v, In v S /\ In c (v2c v)) /\ In i (rel c)).
 Proof.
+  (* independent of how the regenerated body splits the accumulation into steps *)
   intros rel v2c S i. unfold get_related. cbv zeta.
-  repeat (rewrite in_app_iff || rewrite in_flat_map). cbn [In app].
-  split.
-  - intros [[[] | [v [Hv Hi]]] | [c [Hc Hi]]].
-    + left. exists v. auto.
-    + apply in_flat_map in Hc. destruct Hc as [v [Hv Hc]].
-      right. exists c. split; [exists v; auto | exact Hi].
-  - intros [[v [Hv Hi]] | [c [[v [Hv Hc]] Hi]]].
-    + left. right. exists v. auto.
-    + right. exists c. split; [apply in_flat_map; exists v; auto | exact Hi].
+  repeat (setoid_rewrite in_app_iff || setoid_rewrite in_flat_map). cbn [In].
+  timeout 30 firstorder.
 Qed.
 
 (* chains k > c1 > c2 > ... > i of conditions, consecutive ones sharing a variable *)
